@@ -353,12 +353,10 @@ func (rn *Runner) deliver(peer *StubPeer, variant string, sess []Msg, i int) boo
 		e.SW.StopPeerForError(peer, "panic in Receive")
 	}
 	if rname == "consensus" && e.Mode == "syncing" && (m.Ch == consensus.DataChannel || m.Ch == consensus.VoteChannel) {
+		// nobody drains the consensus queue (capacity 1000) before the switch to consensus: a reactor that queues what
+		// it receives while syncing blocks in Receive once the queue is full (judged by the hang oracle above)
 		e.queued++
-		if e.queued > 900 {
-			rn.run.Count("rebuilds_because_syncing_node_queue_nearly_full", 1)
-			rn.calib = true
-			rn.broken = true // calibration: nobody drains the consensus queue (capacity 1000) before the switch to consensus
-		}
+		rn.run.Max("max_data_and_vote_messages_sent_to_one_syncing_node", int64(e.queued))
 	}
 	// a consensus-state mutex leaked by Receive would block the loop: probe before waiting for it
 	if rname == "consensus" && !tryLock(e.V.CS.VerifTryLock) {
